@@ -261,7 +261,12 @@ def _judge_online(case, ctx):
     out = []
     with probes.ComparableSpy(sink):
         if which == 'sort':
-            got = util.attempt_rows_twice(lambda: petl.sort(table, key, reverse=reverse, buffersize=case.get('buffersize')))
+            src_ = table
+            if isinstance(key, (list, tuple)) and len(key) >= 2 and int(util.fp(case)[4:6], 16) % 3 == 0:
+                # the input is already a sort view on the leading key field: the order asked for is that of the full key
+                src_ = petl.sort(table, key[0], reverse=reverse)
+                ctx.seen('online:sort-of-a-sort-view-on-the-leading-key-field')
+            got = util.attempt_rows_twice(lambda: petl.sort(src_, key, reverse=reverse, buffersize=case.get('buffersize')))
             if any(len(r) < 3 for r in rows):
                 ctx.seen('online:sort-with-missing-key-cells')
             if isinstance(got, util.Raised):
